@@ -857,6 +857,74 @@ def translate(repo):
     if 'cache_clear' in ast.dump(setter) or 'fem_data' in ast.dump(setter):
         raise TranslateError('FEMElementalAttribute.data setter refers to caches / the mesh: not modelled')
 
+    # the owner hook: FEMData.__init__ does `self.elements.<H> = self.<M>` and the setter (directly
+    # or through a method of its class) runs `getattr(self, '<H>', None)` when it is set
+    hook_method = None
+    init = universe.get('__init__')
+    hooks = []
+    if init is not None:
+        for n in ast.walk(init):
+            if isinstance(n, ast.Assign) and len(n.targets) == 1:
+                t, v = n.targets[0], n.value
+                if isinstance(t, ast.Attribute) and isinstance(t.value, ast.Attribute) and \
+                        t.value.attr == 'elements' and isinstance(t.value.value, ast.Name) and \
+                        t.value.value.id == 'self' and isinstance(v, ast.Attribute) and \
+                        isinstance(v.value, ast.Name) and v.value.id == 'self' and v.attr in universe:
+                    hooks.append((t.attr, v.attr))
+    if len(hooks) > 1:
+        raise TranslateError('more than one owner hook on self.elements')
+    cmeths = class_methods(cl['FEMElementalAttribute'][0])
+
+    def notifies(fn, H, depth=0):
+        bound = set()
+        for st in fn.body:
+            if isinstance(st, ast.Assign) and len(st.targets) == 1 and isinstance(st.targets[0], ast.Name) and \
+                    isinstance(st.value, ast.Call) and isinstance(st.value.func, ast.Name) and \
+                    st.value.func.id == 'getattr' and len(st.value.args) >= 2 and \
+                    isinstance(st.value.args[0], ast.Name) and st.value.args[0].id == 'self' and \
+                    const_str(st.value.args[1]) == H:
+                bound.add(st.targets[0].id)
+            calls = []
+            if isinstance(st, ast.Expr) and isinstance(st.value, ast.Call):
+                calls.append(st.value)
+            if isinstance(st, ast.If) and not st.orelse and len(st.body) == 1 and \
+                    isinstance(st.body[0], ast.Expr) and isinstance(st.body[0].value, ast.Call):
+                t = st.test
+                guard = None
+                if isinstance(t, ast.Name):
+                    guard = t.id
+                if isinstance(t, ast.Compare) and isinstance(t.left, ast.Name) and len(t.ops) == 1 and \
+                        isinstance(t.ops[0], ast.IsNot) and isinstance(t.comparators[0], ast.Constant) and \
+                        t.comparators[0].value is None:
+                    guard = t.left.id
+                c = st.body[0].value
+                if guard is not None and isinstance(c.func, ast.Name) and c.func.id == guard:
+                    calls.append(c)
+            for c in calls:
+                if isinstance(c.func, ast.Name) and c.func.id in bound and not c.args and not c.keywords:
+                    return True
+                if isinstance(c.func, ast.Attribute) and isinstance(c.func.value, ast.Name) and \
+                        c.func.value.id == 'self':
+                    if c.func.attr == H and not c.args:
+                        return True
+                    if c.func.attr in cmeths and depth < 2 and notifies(cmeths[c.func.attr], H, depth + 1):
+                        return True
+        return False
+    if hooks and notifies(setter, hooks[0][0]):
+        hook_method = hooks[0][1]
+    # a mesh method that assigns self.elements.data runs the hook as well
+    if hook_method is not None:
+        for nm, fn in universe.items():
+            if nm not in facts or nm == hook_method:
+                continue
+            for n in ast.walk(fn):
+                if isinstance(n, ast.Assign):
+                    for t in n.targets:
+                        if isinstance(t, ast.Attribute) and t.attr == 'data' and \
+                                isinstance(t.value, ast.Attribute) and t.value.attr == 'elements' and \
+                                isinstance(t.value.value, ast.Name) and t.value.value.id == 'self':
+                            facts[nm].calls.append((hook_method, False, None))
+
     # ---- assemble
     for nm, f in facts.items():
         for (c, _, ln) in f.calls:
@@ -1045,9 +1113,16 @@ def translate(repo):
                         'clears': sorted(c for c in C[m] if c in qnames),
                         'clears_slots': sorted(slots[s] for s in P[m] if s in slots),
                         'where': f'{where[m]}:{facts[m].lineno}'})
-    effects.append({'name': 'assign_connectivity', 'writer': False, 'pre': [],
-                    'writes': [('elements', None)], 'clears': [], 'clears_slots': [],
-                    'where': f'{rel}:{setter.lineno}'})
+    if hook_method is not None and hook_method in allfacts:
+        effects.append({'name': 'assign_connectivity', 'writer': False, 'pre': pre_of(hook_method),
+                        'writes': [('elements', None)],
+                        'clears': sorted(c for c in C[hook_method] if c in qnames),
+                        'clears_slots': sorted(slots[s] for s in P[hook_method] if s in slots),
+                        'where': f'{rel}:{setter.lineno} -> FEMData.{hook_method}'})
+    else:
+        effects.append({'name': 'assign_connectivity', 'writer': False, 'pre': [],
+                        'writes': [('elements', None)], 'clears': [], 'clears_slots': [],
+                        'where': f'{rel}:{setter.lineno}'})
     for names, W in writers:
         key = '@' + W.name
         for nm in names:
